@@ -165,6 +165,10 @@ def show_val(typ, k):
         return f'D{k}'
     if t in ('std::shared_ptr<Incident>', 'std::shared_ptr<::Incident>'):
         return f'I{k}'
+    if t == 'constchar*':
+        return f'c{k}'
+    if t in ('Incident*', '::Incident*'):
+        return f'P{k}'
     if t.startswith('type_') and t.endswith('_t'):
         return f't{t[5]}_{k}'
     raise ValueError(typ)
